@@ -624,7 +624,9 @@ impl Pool for PoolImpl {
     async fn recover_from_standstill(&self) {
         let slot = self.finalized_slot();
         let mut certs = self.get_final_certs(slot);
-        assert!(!certs.is_empty(), "no final cert");
+        // NOTE: Before the first finalization only genesis is finalized,
+        // which needs no certificate; there is still state of later slots to re-broadcast.
+        assert!(slot.is_genesis() || !certs.is_empty(), "no final cert");
         certs.extend(self.get_certs(slot.next()..));
         let votes = self.get_own_votes(slot.next()..);
 
